@@ -1763,7 +1763,11 @@ impl Kanata {
                         CustomAction::CancelMacroOnRelease => {
                             log::debug!("cancelling all macros: releasable macro");
                             layout.active_sequences.clear();
-                            self.macro_on_press_cancel_duration = 0;
+                            // The releases of the keys held by the cancelled macros are emitted
+                            // by the next tick. is_idle() is false while this counter is non-zero
+                            // (it is decremented at the end of this tick, hence 2), which keeps
+                            // kanata from blocking before that tick has run.
+                            self.macro_on_press_cancel_duration = 2;
                             layout.states.retain(|s| {
                                 !matches!(
                                     s,
